@@ -19,7 +19,9 @@ EXPLANATION = (
     "return always stores the resume state built from the current indices, the loop skips exactly next_tx_idx "
     "transactions, per-transaction indices are reset to 0 after a completed transaction, input/output loops skip "
     "exactly their start index and pause before touching the element, ingest_block asserts no block is in progress; "
-    "R4 every Slicing result is consumed by a branch. "
+    "R4 every Slicing result is consumed by a branch; R5 the in-progress delta records every index / balance write of the "
+    "ingestion writers under the same condition, so the reverting accessors can undo all of it; R6 the header of a stabilising "
+    "block is stored before its ingestion starts and the stable height advances exactly on completion, independent of slicing. "
     "Does NOT decide: equality of answers at every pause point for every block shape, finiteness of the number of "
     "rounds, equality of the final state with an unsliced run.")
 RULES = {
@@ -28,6 +30,8 @@ RULES = {
     'R2': 'heartbeat phase gating on the Slicing result; CALLERS(insert_block)',
     'R3': 'WRITERS(ingesting_block); Paused ⇒ resume state stored; resume indices',
     'R4': 'Slicing results feed a switch at every call site',
+    'R5': 'delta completeness: index/balance/delta written together in the ingestion writers (= C01.R4)',
+    'R6': 'slicing-independent bookkeeping: header stored before ingestion starts (= C03.R2), height advanced on completion (= C03.R1)',
 }
 ASSUMPTIONS = ['the metrics endpoint reports raw diagnostic gauges (documented); it is excluded from R1']
 US = 'ic_btc_canister::utxo_set::UtxoSet'
@@ -40,6 +44,17 @@ def run(ctx):
     r2(ctx)
     r3(ctx)
     r4(ctx)
+    # R5: the delta the reverting accessors undo must be complete: every index / balance write of the
+    # ingestion writers is recorded in the in-progress delta under the same condition (shared with C01.R4)
+    from sa.engine import SubCtx
+    from rules import c01, c03
+    c01.r3_r4_r5(SubCtx(ctx, {'R4': 'R5'}))
+    # R6: what is recorded for a stabilising block must not depend on how its ingestion is sliced: the
+    # header is stored, for the block peek returned and at the current stable height, before ingestion
+    # starts (shared with C03.R2), and the stable height advances once, on completion (C03.R1)
+    c03.r2(SubCtx(ctx, {'R2': 'R6'}))
+    c03.r1(SubCtx(ctx, {'R1': 'R6'}))
+    r6(ctx)
 
 
 def r1(ctx):
@@ -228,14 +243,19 @@ def r3(ctx):
             P.call('core::iter::traits::iterator::Iterator::enumerate', P.call('core::slice::iter', P.call('ic_btc_types::Block::txdata', P.anything)))(e.operand(sk[0].args[0]))
         ctx.check(good, 'R3', 'resume-skips-next_tx_idx', sk[0] if sk else f, 'the transaction loop is txdata().iter().enumerate().skip(next_tx_idx)', 'transaction loop source: %s' % [show(e.operand(c.args[0]))[:150] for c in sk])
         # indices reset to 0 after a completed tx
+        from sa.util import find_locals
         for nm in ('next_input_idx', 'next_output_idx'):
-            ls = [l for l, loc in enumerate(f.locals) if loc.get('name') == nm]
+            ls = find_locals(prog, f, lambda x, l, nm=nm: x[0] == 'field' and x[2] == nm, lambda x, l: const_val(x) == 0)
             resets = [(bb, x) for l in ls for bb, x in local_assignments(prog, f, l) if const_val(x) == 0]
             h = g.in_loop(resets[0][0]) if resets else None
             ctx.check(bool(resets) and h is not None, 'R3', 'reset:' + nm, f.where(resets[0][0]) if resets else f, '%s is reset to 0 after each completed transaction' % nm, '%s is not reset inside the loop' % nm)
         # arguments of ingest_tx_with_slicing are the resume indices
         c = [k for k in f.calls_to(US + '::ingest_tx_with_slicing') if not k.cleanup]
-        good = len(c) == 1 and P.named('next_input_idx')(e.operand(c[0].args[2])) and P.named('next_output_idx')(e.operand(c[0].args[3]))
+        from sa.util import find_locals, is_var
+        def idx_local(field):
+            ls = find_locals(prog, f, lambda x, l: x[0] == 'field' and x[2] == field, lambda x, l: const_val(x) == 0)
+            return is_var(ls[0]) if len(ls) == 1 else (lambda x: False)
+        good = len(c) == 1 and idx_local('next_input_idx')(e.operand(c[0].args[2])) and idx_local('next_output_idx')(e.operand(c[0].args[3]))
         ctx.check(good, 'R3', 'resume-indices-passed', c[0] if c else f, 'the stored input/output indices are passed to the per-transaction step', 'per-transaction step receives other indices')
     f = ctx.fn('R3', US + '::ingest_tx_with_slicing')
     if f:
@@ -273,6 +293,20 @@ def r3(ctx):
         isnone = P.call('core::option::Option::is_none', P.field('ingesting_block', P.param('self')))
         good = any(any(P.not_(isnone)(c) for c in cs) for cs in conds) and len(fa) == 1 and any(isnone(c) for c in cond_exprs(prog, f, fa[0][0]))
         ctx.check(good, 'R3', 'ingest_block-asserts-none', f, 'ingest_block asserts that no block is in progress before storing the new one', 'ingest_block does not assert ingesting_block.is_none() first')
+
+
+def r6(ctx):
+    prog = ctx.prog
+    f = ctx.fn('R6', 'ic_btc_canister::state::ingest_stable_blocks_into_utxoset')
+    if not f:
+        return
+    g = cfg(f)
+    ins = [c for c in f.calls_to('ic_btc_canister::block_header_store::BlockHeaderStore::insert_block') if not c.cleanup]
+    ing = [c for c in f.calls_to(US + '::ingest_block') if not c.cleanup]
+    good = len(ins) == 1 and len(ing) == 1 and g.dominates(ins[0].bb, ing[0].bb) and not [c for c in cond_exprs(prog, f, ins[0].bb) if not (c[0] == 'is' and P.call('ic_btc_canister::unstable_blocks::peek', P.anything)(c[1]))]
+    ctx.check(good, 'R6', 'header-stored-before-ingestion-starts', ins[0] if ins else f,
+              'the stabilising block\'s header is stored once, before its ingestion starts, on the only path that starts an ingestion — whether or not that ingestion is later paused',
+              'the header of a stabilising block is not stored unconditionally before its ingestion starts: a block whose ingestion is paused and finished by a later heartbeat is recorded differently from one ingested in one go')
 
 
 def r4(ctx):
